@@ -589,9 +589,14 @@ func genDDMet(r *rand.Rand, c *Case) {
 			flag(c, "empty-series")
 		}
 		t := int64(1700000000) + r.Int63n(200000)
+		stamped := 0
+		if r.Intn(6) == 0 {
+			stamped = 1 + r.Intn(2) // leading points without a timestamp: the clock reading of the points array
+			flag(c, "clock-stamped")
+		}
 		for j := 0; j < np; j++ {
 			t += int64(r.Intn(100))
-			s.Points = append(s.Points, DDPoint{TsS: t, Val: genFloat(r)})
+			s.Points = append(s.Points, DDPoint{TsS: t, Val: genFloat(r), NoTs: j < stamped})
 		}
 		c.Body.DDMet = append(c.Body.DDMet, s)
 	}
